@@ -30,6 +30,10 @@ type Obligation struct {
 	ExpectSat bool // vacuity canaries: must be satisfiable
 	Mode   Mode
 	Batch  int // obligations of one site on one path share a batch id (0 = none)
+	// for replay
+	Fn     *ssa.Function
+	Inputs []replayInput
+	Clause *Clause
 }
 
 type Exec struct {
@@ -60,6 +64,7 @@ type Exec struct {
 	lits map[string]string
 	curPkg *types.Package
 	useLemmas []string
+	replayInputs []replayInput
 	refHeaps map[string]bool
 	nextBefore string
 	elemRange map[string]string
@@ -253,6 +258,7 @@ func (x *Exec) oblige(st *State, kind, label string, props []string, goal, where
 		name += "/" + label
 	}
 	o := &Obligation{Name: name, Func: x.fname, Kind: kind, Label: label, Props: props, Goal: goal, Where: where, Src: src, Mode: x.Mode, Batch: x.batch}
+	o.Fn, o.Inputs = x.fn, x.replayInputs
 	if goal == "true" {
 		o.Folded = true
 	} else {
@@ -743,6 +749,9 @@ func (x *Exec) VerifyFunc(fn *ssa.Function, fc *FuncContract, name string) (obls
 		}
 		fr.Regs[p] = v
 		fr.Params[p.Name()] = v
+		if v.T != "" {
+			x.replayInputs = append(x.replayInputs, replayInput{Name: p.Name(), Term: v.T, Typ: p.Type()})
+		}
 		if _, ok := p.Type().Underlying().(*types.Pointer); ok {
 			// implicit precondition: pointer parameters are non-nil
 			st.assume(app("not", eq(v.T, "0")))
@@ -1661,6 +1670,7 @@ func (x *Exec) atReturn(st *State, res []*Value, ins *ssa.Return) {
 		}
 		g := x.evalBool(env, cl.Expr)
 		x.oblige(st, "post", label, cl.Props, g, cl.Where, cl.Src)
+		x.obls[len(x.obls)-1].Clause = cl
 	}
 	for _, a := range fc.Asserts {
 		if a.At == "" {
